@@ -9,6 +9,31 @@ INT_RANGE = {"u8": (0, 255), "i8": (-128, 127), "u16": (0, 65535), "i32": (-2**3
              "u64": (0, 2**63), "isize": (-2**40, 2**40)}
 
 
+def spell_disc(rng, d, ri):
+    """an expression of the enum's integer type whose value is d: operators binding weaker than `+`
+    (the generated code adds offsets to it) and forms whose value depends on the type (`!K`)"""
+    lo, hi = INT_RANGE.get(ri or "isize")
+    unsigned = lo == 0
+    forms = [None, None]
+    if d > 0 and d % 2 == 0:
+        tz = (d & -d).bit_length() - 1
+        b = rng.randint(1, tz)
+        forms.append("%d << %d" % (d >> b, b))
+    if 0 <= d <= 127:
+        forms.append("%d & 0x7f" % d)
+        forms.append("%d | %d" % (d & ~1, d & 1))
+        forms.append("%d ^ %d" % (d ^ 5, 5))
+    if ri is not None and ri != "u64":
+        maxv = {"u8": 255, "u16": 65535}.get(ri)
+        if unsigned and maxv is not None and 0 <= maxv - d <= 40:
+            forms += ["!%d" % (maxv - d)] * 3
+        if not unsigned and -40 <= d < 0:
+            forms += ["!%d" % (-d - 1)] * 2
+    if ri is None and -40 <= d < 0:
+        forms.append("!%d" % (-d - 1))
+    return rng.choice(forms)
+
+
 def repr_int(r):
     if r is None:
         return None
@@ -23,7 +48,8 @@ class P(b1.Plugin):
     driver_traits = (("ord", "Ord"),)
     rule = ("enum definitions with 1-4 variants over unit/tuple/named shapes, payload types with niches or zero size (bool, char, "
             "NonZeroU8, &u8, Option<Box<u8>>, nested enum, ZST, u8), #[repr] in {none,u8,i8,u16,i32,u64,isize,C,'C, u8','u8, align(4)',"
-            "align(8),align(2)}, explicit discriminants incl. negative and >127/>32767 where the repr allows; all ordered value pairs, "
+            "align(8),align(2)}, explicit discriminants incl. negative and >127/>32767 where the repr allows, written as literals or as expressions "
+            "(`a << b`, `a & m`, `a | b`, `a ^ b`, and the type-dependent `!k`); all ordered value pairs, "
             "each comparison repeated with both operands embedded in #[repr(C)] wrappers with different trailing bytes (ops cmpw/pcmpw). "
             "distinct_nontrivial = definitions with >=2 variants or a payload, on which at least two different results were observed")
 
@@ -40,6 +66,8 @@ class P(b1.Plugin):
         all_unit = all(v.shape == "unit" for v in td.variants)
         if r is not None and not td.variants:
             r = None                                   # repr on a zero-variant enum is rejected by rustc
+        if r == "C, u8" and all_unit:
+            r = "u8"                                   # rustc: conflicting representation hints on a fieldless enum
         ri = repr_int(r)
         # explicit discriminants: legal on fieldless enums, or with a primitive repr
         if td.variants and (all_unit or ri) and rng.random() < 0.6:
@@ -55,6 +83,7 @@ class P(b1.Plugin):
                     else:
                         continue
                     v.disc = d
+                    v.disc_src = spell_disc(rng, d, ri)
                     cur = d
                 else:
                     cur = 0 if cur is None else cur + 1
